@@ -1,7 +1,7 @@
 (* ExtractDeps.v — every executable model file the OCaml driver is extracted from.
    No proofs are required here, so the model still runs when a proof breaks. *)
 From Agdb Require Export Bytes Utf8 Codec DbValue Graph DbModel Search Queries FileWal.
-From Agdb Require Raft.
+From Agdb Require Raft RaftLog.
 From Agdb Require Export ExecSched.
 From Agdb Require Export ValueIndex OpenFile.
 From Agdb Require Export Records Storage StorageSpec.
